@@ -1038,7 +1038,8 @@ def upcast(ctx, rid):
         return
     f = t[3]
     expect_term(ctx, rid, "upcast/derives", fn["sp"], f["derives"],
-                "mut[DerivesRegistry::default_derives(P0.settings.derives);.Derives::insert_derive(T[#0](P0.settings.compact_as_type_path@v1::Some.0)) if CompositeIRKind::could_derive_as_compact(P1.kind)&&let v1::Some($)=P0.settings.compact_as_type_path]",
+                "if((CompositeIRKind::could_derive_as_compact(P1.kind)&&let v1::Some($)=P0.settings.compact_as_type_path)){mut[DerivesRegistry::default_derives(P0.settings.derives);"
+                ".Derives::insert_derive(T[#0](P0.settings.compact_as_type_path@v1::Some.0))]}else{DerivesRegistry::default_derives(P0.settings.derives)}",
                 "exactly the global derives/attributes, plus CompactAs under the single-unsigned-field rule")
     expect_term(ctx, rid, "upcast/type-params", fn["sp"], f["type_params"], "TypeParameters::from_scale_info([])", "no generic parameters")
     expect_term(ctx, rid, "upcast/codec-flag", fn["sp"], f["insert_codec_attributes"], "P0.settings.insert_codec_attributes", "codec attributes as configured")
